@@ -14,6 +14,9 @@ CHECKS = {
  "C02": ("exploration", "runtime monitor: per-stream sequence/end-of-stream oracle over API-boundary records of both sides, rendezvous hooks forcing the done-check/blocking-step windows of RecvMsg, SendMsg and CloseSend",
          "Element-wise comparison of what each side received with what the other sent, plus exact terminal results (io.EOF for the handler after half-close, io.EOF for the caller iff the handler returned nil), over 9 admissible program-pair families, counts 0..200, 1..32 streams per connection and 3 topologies; the race window the property names is produced deterministically in a third of the cases by parking the operation at a hook until the stream has been torn down.",
          "Trusts the harness link and grpc's codec; program pairs are restricted to ones that cannot deadlock by construction on a connection without per-stream flow control (see DESIGN.md section 7).", "DESIGN.md 2/C02"),
+ "C03": ("exploration", "runtime monitor: independent expected-status oracle (code, message, details) against the caller-observed outcome; rendezvous hook holding the trailer in the server writer while late bodies race it; scripted foreign peer",
+         "All 16 non-OK codes x error kinds x message classes x 0..3 details x positions x 4 RPC kinds through real client and server, plus the handler-fails-while-caller-sends race forced at the writer hook and 9 foreign reply shapes (explicit OK, status without metadata, resets). Success must coincide exactly with a nil handler error.",
+         "Expected status is computed by the harness from the handler's error value per the property text (wrapped errors may carry inner or outer message).", "DESIGN.md 2/C03"),
 }
 NOT_YET = "check not built yet in this round (runtime-monitoring design in DESIGN.md section 2); will be claimed once its monitor exists"
 
